@@ -33,7 +33,7 @@ COMPONENTS = {
              "delimited_rows/fixed_rows", "csv", "io.TextIOWrapper/BufferedReader"],
     "stub": ["SimFS/SimRaw", "text peer", "stepping client"],
 }
-PROBES_REQUIRED = ["empty-key-value", "readers-built-from-the-same-cid-path", "other-cid-stepped-alternately", "api:validate-with-limit", "other-data-set-validated-before", "duplicate-right-after-rejected-row-with-same-key", "triple-occurrence", "threshold-hit-exactly",
+PROBES_REQUIRED = ["two-isunique-checks", "empty-key-value", "readers-built-from-the-same-cid-path", "other-cid-stepped-alternately", "api:validate-with-limit", "other-data-set-validated-before", "duplicate-right-after-rejected-row-with-same-key", "triple-occurrence", "threshold-hit-exactly",
                    "distinctcount-declared-before-isunique", "end-check-fails", "duplicate", "mode:raise", "mode:yield",
                    "mode:continue"]
 
@@ -64,10 +64,14 @@ def generate(seed, tier):
     fields.append({"name": "n", "type": "Integer", "rule": "0{sep}9", "width": 1})
     checks = []
     kinds = swarm.choice([["IsUnique"], ["DistinctCount"], ["IsUnique", "DistinctCount"], ["IsUnique", "DistinctCount"],
-                          ["DistinctCount", "IsUnique"]])
+                          ["DistinctCount", "IsUnique"], ["IsUnique", "IsUnique"], ["IsUnique", "IsUnique", "DistinctCount"]])
     names = [field["name"] for field in fields]
     for kind in kinds:
-        if kind == "IsUnique":
+        if kind == "IsUnique" and checks and checks[0][1] == "IsUnique":
+            # a second uniqueness check, over another key set: a row is accepted if no accepted row shares either key
+            keys = [name for name in [names[-1]] + names[:key_count] if [name] != checks[0][2].split(", ")][:swarm.randint(1, 2)]
+            checks.append(["uniq2", "IsUnique", ", ".join(keys)])
+        elif kind == "IsUnique":
             keys = swarm.sample(names[:key_count], swarm.randint(1, key_count))
             checks.append(["uniq", "IsUnique", ", ".join(keys)])
         else:
@@ -116,8 +120,11 @@ def execute(scenario):
     tabular.store(fs, path, spec, table)
     raw_rows = tabular.as_read(spec, table)
     limit = scenario.get("limit") if api == "validate" else None
-    model = tabular.RefReader(spec, raw_rows, until=limit)
+    model = tabular.RefReader(spec, raw_rows, until=limit, keys_of_accepted_rows_only=True)
     expected = model.items()
+    two_unique = [check[1] for check in spec["checks"]].count("IsUnique") >= 2
+    if two_unique:
+        result.probe("two-isunique-checks")
     states = []
     with simfs.Seams(fs):
         cid = lib.load_cid(tabular.cid_rows(spec))
@@ -212,11 +219,27 @@ def execute(scenario):
     result.digest = history.digest()
     result.trace = {"expected": expected[:8], "actual": outcome["items"][:8], "raised": outcome["raised"],
                     "closed": outcome["closed"]}
+    def verify(reference):
+        if api == "validate":
+            tabular.verify_validate(reference, run.raised, limit, path, ["api=validate"])
+        else:
+            tabular.verify_run(reference, run, mode, api, path, ["mode=" + mode])
+
     if api == "validate":
         result.probe("api:validate-with-limit" if limit is not None else "api:validate")
-        tabular.verify_validate(model, run.raised, limit, path, ["api=validate"])
-    else:
-        tabular.verify_run(model, run, mode, api, path, ["mode=" + mode])
+    try:
+        verify(model)
+    except core.Violation as violation:
+        code_order = tabular.RefReader(spec, raw_rows, until=limit) if two_unique else None
+        if code_order is None or code_order.items() == expected:
+            raise
+        # the statement's model and the order of the code differ for this table: is that the whole difference?
+        try:
+            verify(code_order)
+        except core.Violation:
+            raise violation
+        raise core.Violation("row-rejected-as-duplicate-of-a-row-another-check-rejected", ["checks=IsUnique+IsUnique"],
+                             "the outcome is the one of keys registered check by check: %s" % (violation.detail,))
     return result
 
 
